@@ -411,6 +411,9 @@ func (op *Element[T]) ReadFrom(r io.Reader) (n int64, err error) {
 			}
 
 			n += inc
+		} else {
+			// The encoded element has no metadata: the receiver's own must not survive.
+			op.MetaData = nil
 		}
 
 		inc, err = op.Value.ReadFrom(r)
